@@ -62,6 +62,9 @@ def script(case):
         L.append("_ev('shlib', %r, install(shl%s))" % (dirargs[1], d(1)))
     if items[2]:
         L.append("_ev('slib', %r, install(stl%s))" % (dirargs[2], d(2)))
+        # ... and a dual-use library: both of its files are installed
+        L.append("_ev('slib', %r, install(library('dualib', ['dl.c'], "
+                 "kind='dual')%s))" % (dirargs[2], d(2)))
     if items[3]:
         L.append("_ev('header', %r, install(header_file('single.h')%s))" %
                  (dirargs[3], d(3)))
@@ -113,6 +116,7 @@ def run_case(case):
         W = lambda n, t: open(os.path.join(src, n), 'w').write(t)
         W('dep.c', 'int dep(void){return 1;}\n')
         W('stl.c', 'int stl(void){return 2;}\n')
+        W('dl.c', 'int dl(void){return 3;}\n')
         W('shl.c', 'int shl(void){return 3;}\n')
         W('dep2.c', 'int dep2(void){return 4;}\n')
         W('mid.c', 'int dep2(void);int mid(void){return dep2()+1;}\n')
